@@ -6,7 +6,11 @@ LEVEL = "other"
 DEDUCTIVE = [{"module": "rnapolis.parser", "sidecar": "contracts.parser_c",
               "targets": ["read_3d_structure", "group_atoms", "lemma:close_run", "lemma:close_run_keys", "lemma:extend_open", "lemma:start_open",
                           "parse_pdb@decode", "lemma:record_names", "lemma:decoded_snoc",
-                          "filter_clashing_atoms", "filter_clashing_atoms@single"]}]
+                          "filter_clashing_atoms", "filter_clashing_atoms@single"]},
+             # the mmCIF leg: per-row decode of the atom_site category (prefix contract of parse_cif) and try_parse_int
+             {"module": "rnapolis.parser", "sidecar": "contracts.parser_cif_c",
+              "targets": ["parse_cif@decode", "try_parse_int", "lemma:numeral_is_int_literal", "lemma:signed_numeral_shape"],
+              "opts": {"z3_probe_ms": 400, "cvc5_probe_s": 6}}]
 TRUSTED = ["mmcif IoAdapterPy tokeniser", "scipy KD-tree", "float()/int() of well-formed numerals", "CPython 3.12",
            # assumed contracts / externals of contracts/parser_c.py (deductive part)
            "KDTree.query_pairs(r) returns exactly the index pairs (a < b) of points at distance <= r (assumed contract); KDTree(points) raises ValueError iff the point list is empty; numpy.array(list of (x, y, z)) is that point list",
@@ -14,21 +18,38 @@ TRUSTED = ["mmcif IoAdapterPy tokeniser", "scipy KD-tree", "float()/int() of wel
            "str.strip(): a deterministic function of its argument (uninterpreted py_strip); float(str): uninterpreted value py_float(s), raises ValueError exactly unless the uninterpreted py_float_ok(s); int(str): pyvc ext_int_of_str (ASCII grammar [ws][+-]digits[_digits][ws], value uninterpreted py_int except plain digit strings and '-'+digits)",
            "Residue3D.is_nucleotide is a pure function of the frozen record (uninterpreted; only the nucleic_acid_only filter uses it)",
            "callee contracts assumed, not verified: is_cif, parse_cif (result shapes only, no ensures), get_residue_name, get_one_letter_name (may raise IndexError), detect_one_letter_name (each: returns a str, no ensures)",
-           "z3 / cvc5 (strings, arrays, quantifiers)"]
+           "z3 / cvc5 (strings, arrays, quantifiers)",
+           # mmCIF leg (contracts/parser_cif_c.py)
+           "mmcif reader (the one assumed statement, external Adapter.readFile): IoAdapterPy().readFile(path) returns the file's data blocks as new container objects; the first block has a category atom_site iff HAS, whose getAttributeList() is ATTRS and getRowList() is ROWS (NB, HAS, ATTRS, ROWS: ghost parameters the contract is universally quantified over); container.getObj(name) is the category of that name or None; the two lists are modelled as immutable values (parse_cif only reads them)",
+           "IO.seek(0) has no effect the code under contract observes; cif.name is the path handed to the reader",
+           "int(str): pyvc ext_int_of_str (ASCII grammar [ws][+-]digits[_digits][ws]; value py_int, tied to SMT-LIB str.to_int on plain digit strings and '-'+digits); int(None) raises TypeError; float(str): uninterpreted py_float / py_float_ok",
+           "dict(zip(K, V)) for two lists: pyvc's dict-comprehension encoding over the list of pairs (first-occurrence order, last value wins), cross-checked against CPython on 360 small cases",
+           "callee contract assumed in contracts/parser_cif_c.py: filter_clashing_atoms (result shape; ValueError iff the atom list is empty, as verified under contracts/parser_c.py) - only on the path of a file without data blocks"]
 ASSUMPTIONS = ["ties in occupancy leave the surviving copy unspecified (either is accepted)",
                "definitional lemmas (not proved, conservative abbreviations): wfl_definition (wfl(l) := wf_line(lines[l]), the per-line PDB well-formedness predicate of parse_pdb@decode's precondition), within_definition (within(p, q, r) := |p - q|^2 <= r^2; never unfolded by a proof)",
                "parse_pdb@decode precondition (well-formed PDB text): record names occupy columns 1-6; every ATOM/HETATM line has >= 27 characters (shorter ones raise IndexError at line[21] / line[26]; slices never raise) and its resSeq / x / y / z / occupancy columns parse; MODEL serials and MODRES sequence numbers parse; MODRES lines have >= 24 characters; the file has at least one ATOM/HETATM record",
                "tuple(residue_atoms) is modelled as the immutable sequence of the list's elements (sidecar TUPLE_AS_SEQUENCE); dicts modified in loops keep the representation invariant 'key list = keys, each once' (DICT_ORDER_INVARIANT); composite dict/set keys are packed by an injective uninterpreted function (PACK_KEYS)",
                "arithmetic over the reals (A-real); strings are z3 sequences of code points <= 0x2FFFF",
                "termination of filter_clashing_atoms' recursion is not proved (partial correctness: the recursive calls use the function's own contract)",
-               "the order of filter_clashing_atoms' result depends on the iteration order of a set of ints (CPython: increasing for set(range(n)) minus discards): the contracts state the result up to that order (ghost enumeration E); 'file order' of read_3d_structure / group_atoms is relative to the atom list parse_pdb / parse_cif return"]
+               "the order of filter_clashing_atoms' result depends on the iteration order of a set of ints (CPython: increasing for set(range(n)) minus discards): the contracts state the result up to that order (ghost enumeration E); 'file order' of read_3d_structure / group_atoms is relative to the atom list parse_pdb / parse_cif return",
+               # mmCIF leg
+               "parse_cif@decode is a PREFIX contract: symbolic execution ends in front of `if mod_residue:` (after the atom_site loop). That the three loops behind it (pdbx_struct_mod_residue, entity_poly, entity) do not touch atoms_to_process and that the function returns filter_clashing_atoms(atoms_to_process) is read off the source, not proved: `modified` is a dict keyed by two different record classes (ResidueLabel and ResidueAuth), which the engine's dict encoding (one key shape per dict) refuses",
+               "parse_cif@decode precondition (well-formed atom_site category): item names pairwise different; every row has one cell per item; POS is the column index of ATTRS (exists for every ATTRS); the items label_atom_id, Cartn_x, Cartn_y, Cartn_z (read by subscript: KeyError otherwise) and label_seq_id, auth_seq_id (an absent one makes try_parse_int(None) raise TypeError - see EXPLANATION) exist; in every row the coordinates parse, the model number parses if the item exists, the occupancy parses or is '?' / '.', and the residue is named completely at least once: label (asym, numeric seq, comp) or auth (asym, numeric seq, comp) - a row with neither is silently skipped by the code and is outside this contract"]
 EXPLANATION = ("Deductive part (pyvc, contracts/parser_c.py; real source re-read on every run). "
                "read_3d_structure: with P the parsed atom list, the atoms handed to group_atoms are exactly the atoms of P, unchanged, in file order, each once (ghost index maps X, Y from the filter's definition), whose model is the requested one if some atom has it and else the model of the first atom; 'a model present in the file is returned and never another'; the result is group_atoms' grouping of them; IndexError only when the file has no atom (ghost assertion). "
                "group_atoms: the residues are consecutive non-empty runs S[k]..S[k+1] covering all atoms in order, each residue holds exactly its run's atoms in order, its (label, auth, model) is that of every one of its atoms, neighbouring residues differ in that key (maximal runs); with nucleic_acid_only the result is a subsequence of these residues. "
                "parse_pdb@decode (under the well-formedness precondition): every ATOM/HETATM record (record name in columns 1-6) is decoded exactly once in file order, with name = strip(cols 13-16), resName = strip(18-20), chain = col 22, number = int(strip(23-26)) (so negative numbers), icode = None iff col 27 is blank, x/y/z/occupancy = float(strip(31-38/39-46/47-54/55-60)), model = int(strip(cols 11-14)) of the LAST preceding MODEL record, 1 if none; no IndexError/ValueError; the returned atoms satisfy filter_clashing_atoms' contract w.r.t. the decoded ones. MODRES handling: only exception freedom. "
                "filter_clashing_atoms (any number of models, recursion through its own contract): every result atom is an input atom; at most one per (model, label, auth, name); it has the highest occupancy-or-0 among the input atoms of that slot; no two result atoms of one model with known occupancies are within the clash distance (KD-tree contract). "
                "filter_clashing_atoms@single (one model): additionally the kept copies UL (one per key, highest occupancy, input atoms), the result = the surviving positions of UL each once (in set-iteration order E), a kept copy is dropped only if it lost a pairwise comparison against a kept copy within the clash distance whose occupancy is not lower, ValueError iff the input is empty. "
-               "Not deductive (bounded oracle only): parse_cif / mmCIF null markers, is_cif, the name helpers, completeness of filter_clashing_atoms across models ('every atom is represented unless a copy lost a comparison' is proved for one model only), result order of the clash filter, termination of the recursion.")
+               "Not deductive (bounded oracle only): parse_cif / mmCIF null markers, is_cif, the name helpers, completeness of filter_clashing_atoms across models ('every atom is represented unless a copy lost a comparison' is proved for one model only), result order of the clash filter, termination of the recursion. "
+               "mmCIF leg (added later; contracts/parser_cif_c.py - of the 'Not deductive' list above, parse_cif's atom_site decode and the null markers are now under contract): "
+               "try_parse_int: an optionally '-'-signed digit string is parsed to exactly the number written (value pinned through SMT-LIB str.to_int, so a reader that rejects negative numbers fails); the result is None exactly for texts int() rejects, in particular '?' and '.'; otherwise it is int(text); TypeError exactly for None. "
+               "parse_cif@decode (prefix contract, relative to the ghost document NB / HAS / ATTRS / ROWS / POS): when the first data block has an atom_site category, atoms_to_process holds exactly one atom per row, in file order (len == len(ROWS), atom j from row j), and for every row: "
+               "label = (label_asym_id, label_seq_id, label_comp_id) if all three items exist and the number is an int literal, else None; auth = (auth_asym_id, auth_seq_id, insertion code, auth_comp_id) likewise, where the insertion code is None for an absent pdbx_PDB_ins_code item and for BOTH null markers '?' and '.', else the cell as written; "
+               "model = int(pdbx_PDB_model_num), 1 when the category has no such item; name = label_atom_id (auth_atom_id is never read - the label name always wins); x / y / z = float(Cartn_x / y / z); occupancy = float(occupancy), None for an absent item and for '?' / '.'; entity id = label_entity_id or None; "
+               "no exception from the loop under the precondition; without a data block or without atom_site no atom is produced; ValueError only for a file without any data block (filter_clashing_atoms([]), the candidate finding above). "
+               "Observation (not a clause of the property): for a category that lacks the item label_seq_id or auth_seq_id, parse_cif raises TypeError (try_parse_int(None): int(None) is a TypeError, which `except ValueError` does not catch) although the code plainly means 'None when absent' (`if label_residue_number is None and auth_residue_number is None: raise RuntimeError`). "
+               "Still not deductive: is_cif, the name helpers, the three other categories of parse_cif and its final call (see ASSUMPTIONS), filter_clashing_atoms' completeness across models.")
 
 
 def bounded(tier, seed):
